@@ -67,7 +67,7 @@ def grad_structure(task):
 def exact_scenario(task):
     """autonomous affine drift, additive constant noise, Euler / Euler adjoint on the same grid: the adjoint gradient wrt
     y0, the constant drift term and the diffusion coefficients equals backprop exactly (rational-function identity)"""
-    d, m, ts, dt = task
+    d, m, ts, dt, loss_mode = task
     grads = []
     for adjoint in (True, False):
         mk = sdes.Maker(symbolic=True, seed=35)
@@ -75,7 +75,13 @@ def exact_scenario(task):
         s_, bm, y0, ys = solve(mk, 'ito', 'euler', 'additive', {}, d, m, 1, ts, dt, adjoint=adjoint,
                                adjoint_method='euler' if adjoint else None, sde=sde)
         validate(ys, mk.env, 1e-8)
-        loss = e1.weighted_loss(mk, ys)
+        # the loss may depend on any subset of the output times
+        if loss_mode == 'all':
+            loss = e1.weighted_loss(mk, ys)
+        elif loss_mode == 'middle':
+            loss = e1.weighted_loss(mk, ys[1:2])
+        else:
+            loss = e1.weighted_loss(mk, ys[-1:])
         g = torch.autograd.grad(loss, [y0, sde.fa, sde.gb], allow_unused=True)
         grads.append(g)
     Zc = e1.Z()
@@ -129,7 +135,8 @@ def run(ctx):
             ctx.violation(f"{t[0]},{t[1]},{t[3]}|grad-structure", '; '.join(res['notes']), replay=dict(kind='structure', task=list(t)))
         else:
             ctx.ok(name)
-    T3 = [(1, 1, [0.0, 0.1, 0.2], 0.1), (2, 2, [0.0, 0.1, 0.2], 0.1)] + ([] if ctx.tier == 'quick' else [(2, 2, [0.0, 0.1, 0.2, 0.3], 0.1), (1, 2, [0.0, 0.2, 0.3], 0.1)])
+    T3 = [(1, 1, [0.0, 0.1, 0.2], 0.1, 'all'), (2, 2, [0.0, 0.1, 0.2], 0.1, 'all'), (1, 2, [0.0, 0.1, 0.2], 0.1, 'middle'), (1, 1, [0.125, 0.25, 0.5], 0.125, 'last')] + \
+         ([] if ctx.tier == 'quick' else [(2, 2, [0.0, 0.1, 0.2, 0.3], 0.1, 'all'), (1, 2, [0.0, 0.2, 0.3], 0.1, 'middle'), (2, 2, [0.0, 0.1, 0.3, 0.4], 0.1, 'middle')])
     tw = 0
     for t, (st_, res) in zip(T3, pmap(exact_scenario, T3)):
         name = f"exact affine/additive Euler adjoint == backprop {t}"
@@ -159,14 +166,15 @@ def replay(data):
         print('replay C09 forward: max diff', float((outs[0] - outs[1]).abs().max()))
         return not torch.equal(outs[0], outs[1])
     if r['kind'] == 'exact':
-        d, m, ts, dt = r['task']
+        d, m, ts, dt, loss_mode = r['task']
         out = []
         for adjoint in (True, False):
             mk = sdes.Maker(symbolic=False, seed=35)
             sde = sdes.PolySDE(mk, 'ito', 'additive', d=d, m=m, degt=0, degy=1, params_grad=True)
             s_, bm, y0, ys = solve(mk, 'ito', 'euler', 'additive', {}, d, m, 1, ts, dt, adjoint=adjoint, adjoint_method='euler' if adjoint else None, sde=sde)
             w = mk('lw', tuple(ys.shape), values=0.5 + 0.1 * np.arange(ys.numel()).reshape(tuple(ys.shape)))
-            g = torch.autograd.grad((ys * w).sum(), [y0, sde.fa, sde.gb])
+            sel = ys if loss_mode == 'all' else (ys[1:2] if loss_mode == 'middle' else ys[-1:])
+            g = torch.autograd.grad((sel * w[:sel.shape[0]]).sum(), [y0, sde.fa, sde.gb])
             nmon = g[1].shape[-1]
             out.append(torch.cat([g[0].reshape(-1), g[1].reshape(-1)[::nmon], g[2].reshape(-1)]))
         err = float((out[0] - out[1]).abs().max())
